@@ -4,6 +4,7 @@ From Coq.Strings Require Import Byte.
 From Gopki.Model Require Import Bytes Base64 Pem Der Asn1 Text Algs Glue Pkcs8 Ext Rdn Time X509 Generate HashView Dir Plan Run Ops Cli Merge Validate Current.
 From Gopki.Spec Require Import RegenSpec DirInv MergeSpec ValidateSpec X509Spec ExtSpec AdmissionSpec PolicySpec.
 From Gopki.Proofs Require Import RunProofs ExtProofs PlanProofs WfProofs X509Proofs DerProofs Asn1Proofs TimeRangeProofs RdnProofs GenerateProofs ValidateProofs TimeProofs AlgsProofs Base64Proofs PolicyProofs MergeProofs CliProofs OpsProofs FaultProofs HistoryProofs HashViewProofs Pkcs8Proofs RecoverProofs PemTornProofs AdmissionProofs PemProofs GlueProofs.
+From Gopki.Proofs Require Import RegenBoolProofs WritesProofs.
 Import ListNotations.
 
 (* the consistency check accepts exactly the hierarchies in which every entity reaches a root *)
@@ -12,3 +13,15 @@ Theorem C18_consistent_iff :
     wf_dir es -> is_consistent es = true <-> (forall e : ent, In e es -> reaches_root es (e_alias e)).
 Proof. exact is_consistent_iff. Qed.
 Print Assumptions C18_consistent_iff.
+
+Theorem C18_reach_oracle :
+  forall (es : list ent) (a : alias), reaches_root es a <-> exists fuel, reachb fuel es a = true.
+Proof. exact reachb_iff. Qed.
+Print Assumptions C18_reach_oracle.
+
+(* a refused hierarchy: the run fails before a single file is written, the directory is exactly what it was *)
+Theorem C18_refused_run_changes_nothing :
+  forall (d : dir) (s : strat) (fault : option (nat * outcome)),
+    is_consistent (d_ents d) = false -> run cur_csr cur_nilcert d s fault = (RErr, d, []).
+Proof. exact (refused_run_changes_nothing cur_csr cur_nilcert). Qed.
+Print Assumptions C18_refused_run_changes_nothing.
